@@ -267,6 +267,26 @@ fn main() {
             }
             println!("ok structural");
         }
+        "relate_shortcut" => {
+            // operands with disjoint envelopes: the matrix must be FF dimA / FF bdimA / dimB bdimB 2
+            use geo::Relate;
+            use geo_types::{polygon, Line, Point};
+            let poly = polygon![(x: 0.0, y: 0.0), (x: 2.0, y: 0.0), (x: 0.0, y: 2.0), (x: 0.0, y: 0.0)];
+            let line = Line::new(coord! {x: 10.0, y: 10.0}, coord! {x: 12.0, y: 11.0});
+            let pt = Point::new(-5.0, -5.0);
+            let checks = [
+                (poly.relate(&line).matches("FF2FF1102").unwrap(), "polygon x line"),
+                (line.relate(&poly).matches("FF1FF0212").unwrap(), "line x polygon"),
+                (poly.relate(&pt).matches("FF2FF10F2").unwrap(), "polygon x point"),
+                (pt.relate(&line).matches("FF0FFF102").unwrap(), "point x line"),
+            ];
+            for (ok, what) in checks {
+                if !ok {
+                    fail(format!("relate of operands with disjoint envelopes ({what}) is not the dimension matrix"));
+                }
+            }
+            println!("ok relate shortcut");
+        }
         _ => {
             eprintln!("unknown op {op}");
             std::process::exit(4);
